@@ -636,6 +636,15 @@ class Folder:
         args = [self._eval(a, m, env) for a in e.args]
         kwargs = {k.arg: self._eval(k.value, m, env) for k in e.keywords if k.arg}
         if isinstance(f, ClassRef):
+            if f.qual in (NAMESPACE_CLS, QNAME_CLS) and kwargs:
+                init = self.p.functions.get(f.qual + ".__init__")
+                if init is not None:
+                    names = init.params[1:]
+                    full = list(args) + [None] * (len(names) - len(args))
+                    for k, v in kwargs.items():
+                        if k in names:
+                            full[names.index(k)] = v
+                    args = full
             if f.qual == NAMESPACE_CLS and len(args) == 2 and all(isinstance(a, str) for a in args):
                 return NS(args[0], args[1])
             if f.qual == QNAME_CLS and len(args) == 2 and isinstance(args[0], NS) and isinstance(args[1], str):
@@ -756,11 +765,18 @@ def validate_identifier_model(program: Program, folder: Folder):
     rets = [n for n in ast.walk(sfn.node) if isinstance(n, ast.Return)]
     out.append(("QualifiedName.__str__ returns _str", len(rets) == 1 and dotted(rets[0].value) == "self._str", ""))
     gi = program.func(NAMESPACE_CLS + ".__getitem__")
-    made = [
-        n for n in ast.walk(gi.node)
-        if isinstance(n, ast.Call) and dotted(n.func) == "QualifiedName" and len(n.args) == 2
-        and dotted(n.args[0]) == "self" and dotted(n.args[1]) == gi.params[1]
-    ]
+    made = []
+    for n in ast.walk(gi.node):
+        if isinstance(n, ast.Call) and dotted(n.func) == "QualifiedName":
+            amap = {}
+            for i, a in enumerate(n.args):
+                if i + 1 < len(params):
+                    amap[params[i + 1]] = a
+            for k in n.keywords:
+                if k.arg:
+                    amap[k.arg] = k.value
+            if dotted(amap.get(ns_p)) == "self" and dotted(amap.get(loc_p)) == gi.params[1]:
+                made.append(n)
     out.append(("Namespace.__getitem__ mints QualifiedName(self, localpart)", len(made) >= 1, ""))
     ninit = program.func(NAMESPACE_CLS + ".__init__")
     st = {}
